@@ -344,7 +344,13 @@ def behaviours(tier):
     out = []
 
     def add(bid, cls, steps=None, port="srv", local="", final_steps=None):
-        out.append({"id": bid, "cls": cls, "port": port, "local": local, "steps": steps or [], "final_steps": final_steps})
+        # info: does the server ever deliver anything that could be read as a version?  Without any version information an
+        # extra output line cannot be "an update notice" (lenient: any payload that mentions a version-like value counts)
+        payload = b"".join(st[1] for st in (steps or []) + (final_steps or []) if st[0] in ("send", "drip", "forever"))
+        payload = payload.split(b"\r\n\r\n", 1)[1] if b"\r\n\r\n" in payload else payload
+        lenient = bid.startswith(("mal/", "delay/malformed")) and bid != "mal/empty" or bid in ("type/bigint", "type/zero")
+        info = cls == "version" or lenient or b"99" in payload or "\u0669".encode() in payload or gzip.compress(b"x")[:2] == payload[:2]
+        out.append({"id": bid, "cls": cls, "port": port, "local": local, "steps": steps or [], "final_steps": final_steps, "info": info})
 
     cur = installed_version()
     NEW = J({"tag_name": "v99.0.0"})
@@ -709,7 +715,7 @@ def is_notice(line):
     return bool(line.strip()) and bool(NOTICE.search(line)) and not NOT_NOTICE.search(line)
 
 
-def judge(ref, got):
+def judge(ref, got, info=True):
     """-> (list of (witness_class, what)), timing suspicion or None"""
     issues = []
     if got["killed"]:
@@ -721,6 +727,9 @@ def judge(ref, got):
             rest = got["out"][len(ref["out"]) :]
             if not (rest.endswith("\n") and rest.count("\n") == 1 and is_notice(rest[:-1])):
                 issues.append(("stdout-extra", f"stdout has extra text after the command's own output that is not one update notice line: {rest[:300]!r}"))
+            elif not info:
+                issues.append(("stdout-extra", f"stdout has an extra line after the command's own output although the update server never delivered "
+                               f"any version information, so it cannot be an update notice: {rest[:300]!r}"))  # fmt: skip
         else:
             k = 0
             while k < min(len(got["out"]), len(ref["out"])) and got["out"][k] == ref["out"][k]:
@@ -842,7 +851,7 @@ def main():
                 r = ref[(c["id"], s)]
                 futs.append(pool.submit(h.execute, c, s, b, kill_after(r)))
             results = [f.result() for f in futs]
-        budget = time.monotonic() + (60 if run.tier != "thorough" else 180)
+        budget = time.monotonic() + (30 if run.tier != "thorough" else 180)
         remeasured = confirmed = 0
         for (c, s, b), got in zip(jobs, results):
             cid = f"{c['id']}|{s}|{b['id']}"
@@ -851,7 +860,7 @@ def main():
                 run.case(cid, None, sample={"case": cid, "skipped": unstable[k]})
                 continue
             r = ref[k]
-            issues, suspect = judge(r, got)
+            issues, suspect = judge(r, got, b["info"])
             if suspect and time.monotonic() < budget:
                 # measure again (twice) with nothing else of this driver running: reference, then the case; a real stall
                 # is deterministic, so it is reported only when every measurement shows it
@@ -860,7 +869,7 @@ def main():
                 for _ in range(2):
                     r2 = h.execute(c, s, None, 60)
                     g2 = h.execute(c, s, b, kill_after(r2))
-                    i2, s2 = judge(r2, g2)
+                    i2, s2 = judge(r2, g2, b["info"])
                     for it in i2:
                         if it not in issues:
                             issues.append(it)
